@@ -57,6 +57,7 @@ type Config struct {
 	MaxSteps   int  // instructions per path
 	MapReverse bool // iterate builtin maps in reverse insertion order
 	RunInit    map[string]bool
+	RecursionFails string // obligation id violated when the recursion bound is exceeded
 }
 
 type Exec struct {
@@ -82,6 +83,12 @@ type Exec struct {
 	sched     *scheduler
 	nextIsDeferred bool
 	hugeNext  bool
+	initStores map[*ssa.Package]map[*ssa.Global]bool
+	initOrder  []*ssa.Package // packages whose init was triggered lazily (cumulative over paths)
+	initSeen   map[*ssa.Package]bool
+	snap       *pathSnap
+	snapLen    int
+	initDepth  int
 	events    []Event
 	Extern    func(x *Exec, fr *frame, name string, fn *ssa.Function, args []Value) (Value, bool)
 }
@@ -110,6 +117,80 @@ func NewExec(p *Program, m *core.Machine) *Exec {
 	return x
 }
 
+type pathSnap struct {
+	mem      *core.MemSnap
+	globals  map[*ssa.Global]uint64
+	strConst map[string]uint64
+	funcAddr map[*ssa.Function]uint64
+	types    []types.Type
+	typeAddr []uint64
+	inited   map[*ssa.Package]bool
+}
+
+// startPath resets per-path state and, when package initialisers were needed
+// on earlier paths, starts from a memory snapshot taken after running them
+// (they are concrete and deterministic, so this is only a cache).
+func (x *Exec) startPath() {
+	x.resetPath()
+	if len(x.initOrder) == 0 {
+		return
+	}
+	if x.snap == nil || x.snapLen != len(x.initOrder) {
+		for _, p := range x.initOrder {
+			if !x.inited[p] {
+				x.ensureInit(p, nil)
+			}
+		}
+		sn := &pathSnap{mem: x.M.Mem.Snapshot(), globals: map[*ssa.Global]uint64{}, strConst: map[string]uint64{}, funcAddr: map[*ssa.Function]uint64{}, inited: map[*ssa.Package]bool{}}
+		for g, a := range x.globals {
+			sn.globals[g] = a.Base
+		}
+		for k, a := range x.strConst {
+			sn.strConst[k] = a.Base
+		}
+		for f, a := range x.funcAddr {
+			sn.funcAddr[f] = a
+		}
+		for a, t := range x.addrType {
+			sn.types = append(sn.types, t)
+			sn.typeAddr = append(sn.typeAddr, a)
+		}
+		for p, v := range x.inited {
+			sn.inited[p] = v
+		}
+		x.snap, x.snapLen = sn, len(x.initOrder)
+		x.resetPath()
+	}
+	sn := x.snap
+	m := x.M.Mem.Restore(sn.mem, func(t interface{}) interface{} {
+		if gm, ok := t.(*gmap); ok {
+			c := *gm
+			c.keys = append([]Value(nil), gm.keys...)
+			c.vals = append([]Value(nil), gm.vals...)
+			c.live = append([]*smt.Term(nil), gm.live...)
+			return &c
+		}
+		return t
+	})
+	for g, b := range sn.globals {
+		x.globals[g] = m[b]
+	}
+	for k, b := range sn.strConst {
+		x.strConst[k] = m[b]
+	}
+	for f, a := range sn.funcAddr {
+		x.funcAddr[f] = a
+		x.addrFunc[a] = f
+	}
+	for i, t := range sn.types {
+		x.typeAddr.Set(t, sn.typeAddr[i])
+		x.addrType[sn.typeAddr[i]] = t
+	}
+	for p, v := range sn.inited {
+		x.inited[p] = v
+	}
+}
+
 // resetPath clears per-path state; call at the start of every explored path.
 func (x *Exec) resetPath() {
 	x.globals = map[*ssa.Global]*core.Alloc{}
@@ -128,7 +209,7 @@ func (x *Exec) resetPath() {
 // RunHarness explores every path of the parameterless function fn.
 func (x *Exec) RunHarness(fn *ssa.Function) {
 	x.M.Explore(func() {
-		x.resetPath()
+		x.startPath()
 		defer func() {
 			if r := recover(); r != nil {
 				if gp, ok := r.(*goPanic); ok {
@@ -202,7 +283,7 @@ func (x *Exec) call(caller *frame, fn *ssa.Function, args []Value, bindings []Va
 	if fn.Name() == "init" && fn.Pkg != nil && fn.Signature.Recv() == nil && fn.Synthetic != "" {
 		// package initialiser: only pure allow-listed packages are initialised
 		path := fn.Pkg.Pkg.Path()
-		if !initAllowed[path] && !x.Cfg.RunInit[path] {
+		if !initAllowed[path] && !x.Cfg.RunInit[path] && fn.Pkg != x.P.Main {
 			return nil
 		}
 		x.inited[fn.Pkg] = true
@@ -223,6 +304,25 @@ func (x *Exec) call(caller *frame, fn *ssa.Function, args []Value, bindings []Va
 	fr := &frame{fn: fn, caller: caller, env: map[ssa.Value]Value{}, loops: map[ssa.Instruction]int{}, isDeferred: isDef}
 	if caller != nil {
 		fr.depth = caller.depth + 1
+	}
+	if fr.depth > x.Cfg.MaxDepth && os.Getenv("SYMX_DEBUG") != "" {
+		for f := fr; f != nil; f = f.caller {
+			arg := ""
+			for _, p := range f.fn.Params {
+				if isString(p.Type()) {
+					func() {
+						defer func() { recover() }()
+						arg += " " + fmt.Sprint(f.env[p].(Agg)[0], f.env[p].(Agg)[1])
+						arg += " " + x.constString(f.env[p])
+					}()
+				}
+			}
+			fmt.Fprintf(os.Stderr, "  depth %d: %s%s\n", f.depth, f.fn, arg)
+		}
+	}
+	if fr.depth > x.Cfg.MaxDepth && x.Cfg.RecursionFails != "" {
+		x.M.Assert(smt.False, x.Cfg.RecursionFails, fmt.Sprintf("recursion deeper than %d in %s: does not terminate within the bound", x.Cfg.MaxDepth, name), "crash")
+		x.M.EndPath("unwind")
 	}
 	if fr.depth > x.Cfg.MaxDepth {
 		x.M.Inconclusive("unwind.recursion", fmt.Sprintf("recursion depth %d exceeded in %s", x.Cfg.MaxDepth, name))
@@ -474,24 +574,74 @@ func (x *Exec) globalAddr(g *ssa.Global) *smt.Term {
 // ensureInit runs the package initialiser of allow-listed pure packages the
 // first time one of their globals is touched.
 func (x *Exec) ensureInit(p *ssa.Package, g *ssa.Global) {
-	if x.inited[p] {
+	if _, done := x.inited[p]; done {
 		return
 	}
 	x.inited[p] = true
 	path := p.Pkg.Path()
-	if !initAllowed[path] && !x.Cfg.RunInit[path] {
-		// Does the global have an initialiser in source?  Without running init
-		// we can only trust zero-initialised globals.
+	if !initAllowed[path] && !x.Cfg.RunInit[path] && p != x.P.Main {
+		// Without running init we can only trust zero-initialised globals.
+		x.inited[p] = false
+		if g != nil && x.hasInitStore(p, g) {
+			x.unsupported("global " + g.String() + " has an initialiser but the init of package " + path + " is not run (not in the pure allow-list)")
+		}
 		return
 	}
 	init := p.Func("init")
 	if init == nil || len(init.Blocks) == 0 {
 		return
 	}
+	if x.initDepth == 0 {
+		if x.initSeen == nil {
+			x.initSeen = map[*ssa.Package]bool{}
+		}
+		if !x.initSeen[p] {
+			x.initSeen[p] = true
+			x.initOrder = append(x.initOrder, p)
+		}
+	}
+	x.initDepth++
+	defer func() { x.initDepth-- }()
 	// the init function stores true to init$guard first and then calls the
 	// dependency inits; those are handled recursively by the same mechanism
 	// (each call to another package's init is intercepted).
 	x.call(nil, init, nil, nil)
+}
+
+// hasInitStore reports whether the package initialiser stores to global g.
+func (x *Exec) hasInitStore(p *ssa.Package, g *ssa.Global) bool {
+	if x.initStores == nil {
+		x.initStores = map[*ssa.Package]map[*ssa.Global]bool{}
+	}
+	set, ok := x.initStores[p]
+	if !ok {
+		set = map[*ssa.Global]bool{}
+		if init := p.Func("init"); init != nil {
+			for _, b := range init.Blocks {
+				for _, ins := range b.Instrs {
+					if st, ok := ins.(*ssa.Store); ok {
+						a := st.Addr
+						for {
+							switch v := a.(type) {
+							case *ssa.FieldAddr:
+								a = v.X
+								continue
+							case *ssa.IndexAddr:
+								a = v.X
+								continue
+							}
+							break
+						}
+						if gg, ok := a.(*ssa.Global); ok {
+							set[gg] = true
+						}
+					}
+				}
+			}
+		}
+		x.initStores[p] = set
+	}
+	return set[g]
 }
 
 var initAllowed = map[string]bool{
